@@ -44,6 +44,8 @@ TEMPLATED = [
     "#", "'#", "\\", "\\\\", "a\\", "\\'", '\\"', "'", '"', "''", '""', "'''", '"""', "\\\\'", "(", ")", "((", "))", "[", "]", "{", "}", ",", ":", ";",
     "+", "%", "%s", "%d", "{}", "{0}", "{{", "}}", "\\n", "\\t", "\\r", "\\0", "\\x41", "\\x", "\\u0041", "\\U0001F600", "\\N{BULLET}", "\\N{",
     "\\N{NOT A NAME}", "\\u00", "\\400", "\r", "\t", "\x00", "\x0b", "\x0c", "\x1b", "\x85", " ", " ", "﻿", "é", "日本", "\U0001f600",
+    "x\rPWNED()", "\rPWNED()#", "x\x0cPWNED()", "x\x0bPWNED()", "x\x1cPWNED()", "x\x1ePWNED()", "x\x85PWNED()", "x\u2028PWNED()",
+    "x\u2029PWNED()", "x\r\tPWNED()", "x\x00PWNED()", "x\x1aPWNED()", "x\\\rPWNED()",
     "lambda: PWNED()", "PWNED()", "PWNED", "__import__", "f'{PWNED()}'", "rb'x'", "None", "True", "partial", "deterministic_choice",
 ]
 ALPHABET = "'\"\\(){}[]+%#,:; nxNu01aPWED\t"
@@ -56,6 +58,17 @@ def expressible(s):
 def q(s):
     return L.render_lit(L.str_lit(s))
 
+
+# pairs of literals that only misbehave together (an opener in one literal, its closer in a later one on the same line)
+PAIRS = [("x/*", "*/y"), ("/*", "*/"), ("a//", "b"), (", "), ('"""', '"""'), ("\\", "'"), ("x{", "}y"), ("(", ")"),
+         ("x\\", "y\\"), ("#", "\r"), ("%(", ")s"), ("/*PWNED()", "PWNED()*/"), ("*/PWNED()/*", "*/PWNED()/*"), ("f'{", "}'")]
+PAIR_POSITIONS = {
+    "two-groups": lambda A, B: f'def p {{ splitters: u return {A} weighted 1, {B} weighted 1, "c" weighted 1 }}',
+    "two-operands": lambda A, B: f'def p {{ splitters: u if f == {A} {{ return "T" weighted 1 }} else if f == {B} {{ return "U" weighted 1 }} '
+                                 f'else {{ return "F" weighted 1 }} }}',
+    "salt-and-group": lambda A, B: f'def p {{ salt: {A} splitters: u return {B} weighted 1, "c" weighted 1 }}',
+    "tuple-pair": lambda A, B: f'def p {{ if f in ({A}, "m", {B}) {{ return "T" weighted 1 }} else {{ return "F" weighted 1 }} }}',
+}
 
 POSITIONS = {
     "salt": lambda S: f'def p {{ salt: {S[0]} splitters: u return "a" weighted 1, "b" weighted 1 }}',
@@ -213,6 +226,20 @@ def run(ctx):
                 envs = [dict(u=u, f=f) for u in ("u1", 7) for f in fvals]
                 tenvs = [dict(u=u, f=f) for u in ("u1", 7) for f in tvals]
                 compare(ctx, im, text, twin, envs, tenvs, payload, pos, sent, with_black=not ctx.quick() or idx % 4 == 0)
+        for pi, (pa, pb) in enumerate(PAIRS):
+            if not (expressible(pa) and expressible(pb)):
+                continue
+            for pos, tmpl in PAIR_POSITIONS.items():
+                idx += 1
+                if not ctx.mine(idx):
+                    continue
+                text2, twin2 = tmpl(q(pa), q(pb)), tmpl('"s0"', '"s1"')
+                if ref_parse(text2)[0] != "ok":
+                    ctx.count("harness/reference-did-not-accept")
+                    continue
+                fv, tv = [pa, pb, "other", pa + pb], ["s0", "s1", "other", "s0s1"]
+                compare(ctx, im, text2, twin2, [dict(u=u, f=f) for u in ("u1", 7) for f in fv],
+                        [dict(u=u, f=f) for u in ("u1", 7) for f in tv], pa + " | " + pb, "pair:" + pos, sent)
         ctx.sample(dict(text=text, twin=twin))
         # random generated programs with hostile literals: twin by token substitution; callees are compared with the
         # skeleton observed on a fixed harmless program (group outcome and unroutable outcome)
